@@ -17,6 +17,7 @@ RULE = ("product of: content {0 B, 1 B, 20001 B} x 12 algorithms x accepted spel
         "{store_object(pid, ...) through path or stream; delete_if_invalid_object with an ObjectMetadata carrying "
         "the default digests only, or also the named algorithm}. thorough = the full product, quick = a seeded "
         "stratified sample (every algorithm x checksum mode x entry point x prior state at least once). Oracle: "
+        "each shard runs in its own store configuration (shard shape, one of the five store algorithms); "
         "independent verdict = size matches and lower(checksum) == hashlib digest; valid -> normal return, pid "
         "bound (store) and nothing deleted; invalid -> NonMatchingChecksum/NonMatchingObjSize, pid not bound, no "
         "tmp residue, no new object (store) / object removed iff unreferenced (delete_if_invalid). "
@@ -75,7 +76,11 @@ def run_shard(cases):
     scratch = new_scratch("c06")
     contents = {k: make_content(v["cseed"], v["size"]) for k, v in SPEC.items()}
     try:
-        pool = WorldPool(scratch, contents, {})
+        import hashlib as _h
+        pick = int(_h.sha256(repr(cases[0]).encode()).hexdigest(), 16)
+        from ..common import STORE_ALGOS
+        cfg = dict(depth=[3, 1, 2][pick % 3], width=[2, 1, 4][(pick // 3) % 3], algo=STORE_ALGOS[(pick // 9) % 5])
+        pool = WorldPool(scratch, contents, {}, **cfg)
         for n, (content, algo, sp, cs, sz, prior, entry) in enumerate(cases):
             setup = [{"op": "store", "pid": "bystander", "content": "unrelated", "kind": "path"}]
             if prior == "unref":
